@@ -53,6 +53,9 @@ def main():
         demo_rel = m.group(1) if m else None
         crate = demo_rel.split("/")[0] if demo_rel else None
         feat = "--features verif" if (crate == "pocket-db" and "verif" in demo) else ""
+        # demonstrations of changes that only show without debug assertions say so in their run command
+        if re.search(r"cargo test[^\n]*--release", demo):
+            feat += " --release"
         name = os.path.basename(demo_rel)[:-3] if demo_rel else None
         if not skip:
             if not demo_rel:
